@@ -264,6 +264,11 @@ def anchor_cases():
             cfg["opts"] = {"version": 0, "number_of_refinements_before_extend": 2}
         out.append({"kind": "run", "cfg": cfg, "comps": [["corner", [1.0, 3.0]], ["gauss", [6.0, 9.0], [0.3, 0.6]], ["osc", [2.0, 1.0], 0.2]],
                     "ref": [0.0, 0.0, 0.0], "refkind": "zero", "tol": 1e2, "max": None, "min": 60})
+    # the reference is given after construction through the operation's setter (UQ workflow; found by missed seed C13_7: a normalisation cached in the
+    # constructor); references far from 1 in magnitude, scalar and vector valued, both a tolerance stop and a point limit
+    for norm, comps, ref, tol, mx in ((2, [["corner", [1.0, 3.0]], ["gauss", [6.0, 9.0], [0.3, 0.6]]], [3.7, 0.02], 1e-2, 120), ("inf", [["osc", [2.0, 1.0], 0.2]], [0.004], 1e2, 150)):
+        cfg = {"strategy": "dimwise", "a": [0.0, 0.0], "b": [1.0, 1.0], "norm": norm, "opts": {}, "grid": {"type": "GlobalTrapezoidal", "boundary": True}, "late_reference": True}
+        out.append({"kind": "run", "cfg": cfg, "comps": comps, "ref": ref, "refkind": "offset", "tol": tol, "max": mx, "min": 30})
     return out
 
 
